@@ -119,14 +119,78 @@ class _Sub(ast.NodeTransformer):
 
 
 def iteration_locals(body, names_outside):
-    """names assigned in a loop body that are private to one iteration: never mentioned outside the loop, and in the body
-    first occur (in source order) as an assignment target - i.e. not loop-carried state such as an accumulator"""
-    first = {}
+    """names assigned in a loop body that are private to one iteration: never mentioned outside the loop, and every read of the
+    name in the body is preceded, on every path through the body, by an assignment in the same iteration (definite assignment) -
+    i.e. not loop-carried state such as an accumulator or a value left over from an earlier iteration's other branch"""
+    carried = set()
+
+    def reads(node, defined):
+        for x in _in_order(node):
+            if isinstance(x, ast.Name):
+                if isinstance(x.ctx, ast.Load) and x.id not in defined:
+                    carried.add(x.id)
+                elif isinstance(x.ctx, ast.Store):
+                    defined.add(x.id)
+                elif isinstance(x.ctx, ast.Del):
+                    carried.add(x.id)
+
+    def block(stmts, defined):
+        for st in stmts:
+            if isinstance(st, ast.If):
+                reads(st.test, defined)
+                d1, d2 = set(defined), set(defined)
+                block(st.body, d1)
+                block(st.orelse, d2)
+                defined |= (d1 & d2)
+            elif isinstance(st, (ast.For, ast.AsyncFor)):
+                reads(st.iter, defined)
+                d1 = set(defined)
+                reads(st.target, d1)
+                block(st.body, d1)
+                block(st.orelse, set(d1))
+            elif isinstance(st, ast.While):
+                reads(st.test, defined)
+                block(st.body, set(defined))
+                block(st.orelse, set(defined))
+            elif isinstance(st, (ast.With, ast.AsyncWith)):
+                for i in st.items:
+                    reads(i.context_expr, defined)
+                    if i.optional_vars is not None:
+                        reads(i.optional_vars, defined)
+                block(st.body, defined)
+            elif isinstance(st, ast.Try):
+                d1 = set(defined)
+                block(st.body, d1)
+                for h in st.handlers:
+                    block(h.body, set(defined))
+                block(st.orelse, set(d1))
+                block(st.finalbody, set(defined))
+            elif isinstance(st, (ast.FunctionDef, ast.AsyncFunctionDef, ast.ClassDef, ast.Lambda)):
+                for x in ast.walk(st):
+                    if isinstance(x, ast.Name) and x.id not in defined:
+                        carried.add(x.id)        # captured by a closure: keep the name
+                defined.add(st.name)
+            elif isinstance(st, ast.Match):
+                reads(st.subject, defined)
+                for c in st.cases:
+                    d1 = set(defined)
+                    for x in ast.walk(c.pattern):
+                        if isinstance(x, (ast.MatchAs, ast.MatchStar)) and x.name:
+                            d1.add(x.name)
+                    if c.guard is not None:
+                        reads(c.guard, d1)
+                    block(c.body, d1)
+            else:
+                reads(st, defined)
+    block(body, set())
     for st in body:
-        for x in _in_order(st):
-            if isinstance(x, ast.Name) and x.id not in first:
-                first[x.id] = isinstance(x.ctx, ast.Store)
-    return {n for n, is_store in first.items() if is_store and n not in names_outside and n in _stored(body)}
+        for x in ast.walk(st):
+            if isinstance(x, ast.Lambda):
+                bound = {a.arg for a in ast.walk(x.args) if isinstance(a, ast.arg)}
+                for y in ast.walk(x.body):
+                    if isinstance(y, ast.Name) and y.id not in bound:
+                        carried.add(y.id)
+    return {n for n in _stored(body) if n not in carried and n not in names_outside}
 
 
 def _in_order(node):
@@ -425,9 +489,10 @@ def fold_append_sequences(fnode):
                 out.append(st)
                 continue
             mentioned = names(st)
+            stored_here = {n.id for n in ast.walk(st) if isinstance(n, ast.Name) and isinstance(n.ctx, (ast.Store, ast.Del))}
             for x in list(pending):
-                if x in mentioned:
-                    pending.pop(x)
+                if x in mentioned or (stored_here & names(pending[x][0].value)):
+                    pending.pop(x)          # the list itself, or a name one of its pending elements reads, is touched: the elements stay where they are
             for fld in ("body", "orelse", "finalbody"):
                 sub = getattr(st, fld, None)
                 if isinstance(sub, list) and sub and isinstance(sub[0], ast.stmt) and not isinstance(st, (ast.FunctionDef, ast.ClassDef)):
